@@ -81,8 +81,20 @@ def generate(rng, tier):
             seen.add((p["hook"], p["nth"]))
             pol2.append(p)
     origin = {"kind": "h1", "replies": replies, "idle_close": 20.0, "connect": [{"delay": r.choice([0, 0, 0.01, 0.3])}]}
+    options = {"connection_strategy": r.choice(["eager", "lazy"])}
+    if not pipelined and r.random() < 0.3:
+        # a response is held for longer than the idle timeout while another hook of the same client connection
+        # (server_disconnected: the origin closes together with its answer) starts and completes during the hold
+        T = r.choice([1, 2])
+        options["tcp_timeout"] = T
+        replies["0"]["then"] = "fin"
+        hk = r.choice(["responseheaders", "response"])
+        pol2 = [p for p in pol2 if not (p["hook"] in ("responseheaders", "response") and p["nth"] == 0)]
+        pol2.append({"hook": hk, "nth": 0, "latency": 0, "action": "intercept",
+                     "then": r.choice(["resume", "edit_resume"]), "after": r.choice([1.5 * T, 2.5 * T]), "which": "response",
+                     "edits": [{"k": "set_header", "name": "X-Edited", "value": "held"}]})
     return {"family": "http1-" + mode.split(":")[0], "modes": [mode], "eager": r.random() < 0.5,
-            "options": {"connection_strategy": r.choice(["eager", "lazy"])},
+            "options": options,
             "clients": [{"steps": steps, "methods": methods,
                          "original_dst": ["a.test", 80] if mode == "transparent" else None}],
             "origins": {"*": origin}, "policy": pol2, "faults": [], "settle": 60.0}
@@ -158,16 +170,22 @@ def oracle(sc, obs):
             if n_copies > 1:
                 v.append({"class": "forwarded_more_than_once", "key": {"hook": hook},
                           "msg": f"flow r{k}: {n_copies} copies of the {'request' if is_req else 'response'} start line/marker at the destination"})
-            if n_copies == 0 and f.error is None and all(c.handler_done for c in obs.clients) and \
-                    not any(c.peer_reset or c.peer_eof for c in obs.clients if not c.handler_done):
-                client_left = any(h[1] == "client_left" for h in [])
-                # no error and not forwarded although resumed: lost message
+            if n_copies == 0:
+                # not forwarded although resumed: only legitimate when the client had left by then, the flow was
+                # killed later, or an addon answered it (never in these scripts)
+                # The decidable case: the proxy itself closed the still-connected client's pipe while the flow was
+                # being held (e.g. an idle timeout that ignored the pending hook), so the resume had nothing to
+                # forward to.  A client that left first, a failed connect or a later kill are legitimate reasons.
                 later_kill = any(o == "kill" and fi == fid for (fi, hk), (_, _, o) in holds.items())
-                if not later_kill and f.response is not None and not is_req:
-                    pass
-                if not later_kill and is_req and f.response is None:
+                dropped = [c for c in obs.clients
+                           if c.close_time is not None and t0 + 1e-6 < c.close_time < t1 - 1e-6
+                           and (c.peer_closed_at is None or c.peer_closed_at > c.close_time + 1e-6)]
+                if not later_kill and dropped and len(obs.clients) == 1 and (f.response is None or not is_req):
                     v.append({"class": "resumed_but_never_forwarded", "key": {"hook": hook},
-                              "msg": f"flow r{k} was resumed at t={t1} but its request never reached an origin and the flow has no error"})
+                              "msg": f"flow r{k} was held from t={t0} to t={t1}; the proxy closed its still-connected "
+                                     f"client at t={dropped[0].close_time} during the hold, so the resumed "
+                                     f"{'request' if is_req else 'response'} never reached its destination "
+                                     f"(flow error: {f.error})"})
             if outcome == "edit_resume" and n_copies == 1 and is_req:
                 # the edited head must be the one on the wire
                 for s in obs.servers:
